@@ -14,7 +14,7 @@
                instantiate it with concrete builder codes).
    Exceptions of the real code are [Err code]; the first exception in the real
    execution order wins. *)
-From Coq Require Import List ZArith Bool Arith.
+From Coq Require Import List ZArith Bool Arith Orders Mergesort.
 From GV Require Import Lib.Tree.
 Import ListNotations.
 
@@ -469,6 +469,85 @@ Definition c02_okb (custom : bool) (names : list (list nat)) (results : list (na
   forallb is_pair_tree ce_raw &&
   blocks_okb custom names results (zip3 (map t_pair ce_raw) cn ci) [].
 
+(* ------------------------------------------------------------------ C02 on LARGE outputs: the checker over Z *)
+(* c02_okb works on unary naturals and compares every id with all ids seen before (quadratic): fine for the
+   model-sized cases, useless for an edge list with 70000 motifs on 140000 vertices.  The same judgement over Z for
+   the fast / network generator (one name per topology), linear in the rows plus ONE merge sort of the block ids:
+   Proofs/GenC02P.v proves that whatever it accepts is accepted by c02_okb on the nat image of the columns, hence
+   satisfies Spec_C02 (blocks in call order, each carrying its callback's edges, its topology's name and one id;
+   ids of distinct blocks differ). *)
+Module ZLe <: TotalLeBool.
+  Definition t := Z.
+  Definition leb := Z.leb.
+  Theorem leb_total : forall x y, leb x y = true \/ leb y x = true.
+  Proof.
+    intros x y. unfold leb. destruct (Z.leb x y) eqn:E; [now left|right].
+    apply Z.leb_le. apply Z.leb_gt in E. apply Z.lt_le_incl. exact E.
+  Qed.
+End ZLe.
+Module ZSort := Sort ZLe.
+
+Fixpoint strict_incr (l : list Z) : bool :=
+  match l with
+  | a :: (b :: _) as t => Z.ltb a b && strict_incr t
+  | _ => true
+  end.
+(* no value occurs twice *)
+Definition nodupz (l : list Z) : bool := strict_incr (ZSort.sort l).
+
+Definition t_zpair (t : tree) : Z * Z := (t_z (t_nth 0 t), t_z (t_nth 1 t)).
+Definition zpair_eqb (a b : Z * Z) : bool := Z.eqb (fst a) (fst b) && Z.eqb (snd a) (snd b).
+Fixpoint zpairs_eqb (a b : list (Z * Z)) : bool :=
+  match a, b with
+  | [], [] => true
+  | x :: a', y :: b' => zpair_eqb x y && zpairs_eqb a' b'
+  | _, _ => false
+  end.
+Fixpoint zlist_eqb (a b : list Z) : bool :=
+  match a, b with
+  | [], [] => true
+  | x :: a', y :: b' => Z.eqb x y && zlist_eqb a' b'
+  | _, _ => false
+  end.
+Fixpoint same_len {A B : Type} (a : list A) (b : list B) : bool :=
+  match a, b with
+  | [], [] => true
+  | _ :: a', _ :: b' => same_len a' b'
+  | _, _ => false
+  end.
+
+(* one block per logged callback call (j = index of the callback, es = the edges it returned), in call order:
+   the block's rows carry exactly es, the name of topology j and ONE non-negative id.
+   Answer: the ids of the non-empty blocks, in call order (None = some block is wrong / rows left over) *)
+Fixpoint blocks_okz (names : list Z) (results : list (nat * list (Z * Z)))
+         (ce : list (Z * Z)) (cn ci : list Z) : option (list Z) :=
+  match results with
+  | [] => match ce, cn, ci with [], [], [] => Some [] | _, _, _ => None end
+  | (j, es) :: rest =>
+      let n := length es in
+      if zpairs_eqb (firstn n ce) es && zlist_eqb (firstn n cn) (repeat (nth j names 0%Z) n)
+         && same_len (firstn n ci) es
+      then match firstn n ci with
+           | [] => blocks_okz names rest (skipn n ce) (skipn n cn) (skipn n ci)
+           | i :: tl =>
+               if forallb (Z.eqb i) tl && Z.leb 0 i
+               then match blocks_okz names rest (skipn n ce) (skipn n cn) (skipn n ci) with
+                    | Some hs => Some (i :: hs)
+                    | None => None
+                    end
+               else None
+           end
+      else None
+  end.
+
+Definition c02_okz (names : list Z) (results : list (nat * list (Z * Z)))
+           (ce_raw : list tree) (cn ci : list Z) : bool :=
+  same_len ce_raw cn && same_len cn ci && forallb is_pair_tree ce_raw &&
+  match blocks_okz names results (map t_zpair ce_raw) cn ci with
+  | Some heads => nodupz heads
+  | None => false
+  end.
+
 (* ------------------------------------------------------------------ C03: sample space and checker *)
 Fixpoint inserts (x : nat) (l : list nat) : list (list nat) :=
   match l with
@@ -588,6 +667,13 @@ Definition c02_check (t : tree) : tree :=
   let names := t_natss (t_nth 1 t) in
   let results := map (fun x => (t_nat (t_nth 0 x), dec_shape (t_nth 1 x))) (t_list (t_nth 2 t)) in
   of_bool (c02_okb (Nat.eqb tag 2) names results (t_list (t_nth 3 t)) (t_nats (t_nth 4 t)) (t_nats (t_nth 5 t))).
+
+(* checker-only entry for large outputs of the fast / network generator (no model run):
+   input: [names = one name code per topology; results = list of [j; edges]; edge column (raw); name column; id column] *)
+Definition c02_check_ids (t : tree) : tree :=
+  let names := t_zs (t_nth 0 t) in
+  let results := map (fun x => (t_nat (t_nth 0 x), map t_zpair (t_list (t_nth 1 x)))) (t_list (t_nth 1 t)) in
+  of_bool (c02_okz names results (t_list (t_nth 2 t)) (t_zs (t_nth 3 t)) (t_zs (t_nth 4 t))).
 
 (* C03 model side: the calls of the generator under EVERY schedule of the sample space.
    input: [tag; jds; sizes; codes; names; motif_indices] ; answer: list of call lists (or error) *)
